@@ -16,6 +16,11 @@ let state_s (c : cache) : string =
 let () =
   let cases = open_in Sys.argv.(1) in
   let st : cache option ref = ref None in
+  (* the two process-wide objects: server = (users generation, cache); sel = which object D/R lines address *)
+  let gsrv : (string * server) list ref = ref [] and sel : string ref = ref "" in
+  let cur_cache () = if !sel = "" then !st else (match List.assoc_opt !sel !gsrv with Some s -> Some s.s_rc | None -> None) in
+  let set_cache c = if !sel = "" then st := Some c
+                    else gsrv := (!sel, { s_users = (List.assoc !sel !gsrv).s_users; s_rc = c }) :: List.remove_assoc !sel !gsrv in
   iter_lines cases (fun line ->
     match split_ws line with
     | "H" :: cap :: ival :: now0 :: ops ->
@@ -32,20 +37,50 @@ let () =
            | _ -> Buffer.add_char bits '?') ops;
          Printf.printf "%s %s\n" (Buffer.contents bits) (state_s !c))
     | ["N"; cap; ival; now] ->
+      sel := "";
       (match new_cache (z_of_dec cap) (z_of_dec ival) (z_of_dec now) with
        | None -> st := None; print_endline "PANIC"
        | Some c -> st := Some c; print_endline "ok")
+    | ["G"; which; now] ->
+      (* the process-wide object itself: created at program start with the parameters of gen/Consts *)
+      let (cap, ival) = if which = "stream" then (streamReplayCapacity, streamReplayInterval_ns)
+                        else (packetReplayCapacity, packetReplayInterval_ns) in
+      (if not (List.mem_assoc which !gsrv) then
+         match new_cache cap ival (z_of_dec now) with
+         | None -> ()
+         | Some c -> gsrv := (which, { s_users = N0; s_rc = c }) :: !gsrv);
+      sel := which;
+      (match cur_cache () with
+       | None -> print_endline "PANIC"
+       | Some c -> Printf.printf "%s %s %s\n" (dec_of_z c.cap) (dec_of_z c.interval) (state_s c))
+    | ["R"; g] ->
+      (* management reload (Mux.SetServerUsers) with users generation g: sstep (Reload g) *)
+      (match List.assoc_opt !sel !gsrv with
+       | None -> print_endline "NOSERVER"
+       | Some s ->
+         let (_, s') = sstep s (Reload (n_of_dec g)) in
+         gsrv := (!sel, s') :: List.remove_assoc !sel !gsrv;
+         Printf.printf "R %s\n" (state_s s'.s_rc))
     | ["P"; which; now] ->
+      sel := "";
       let (cap, ival) = if which = "stream" then (streamReplayCapacity, streamReplayInterval_ns)
                         else (packetReplayCapacity, packetReplayInterval_ns) in
       (match new_cache cap ival (z_of_dec now) with
        | None -> st := None; print_endline "PANIC"
        | Some c -> st := Some c; Printf.printf "%s %s %s\n" (dec_of_z c.cap) (dec_of_z c.interval) (dec_of_z c.expire))
+    | ["D"; s; t; now] when !sel <> "" ->
+      (* traffic at a process-wide object: sstep (Present ...) of the server model *)
+      (match List.assoc_opt !sel !gsrv with
+       | None -> print_endline "NOCACHE"
+       | Some sv ->
+         let (r, sv') = sstep sv (Present ((n_of_dec s, bytes_of_hex t), z_of_dec now)) in
+         gsrv := (!sel, sv') :: List.remove_assoc !sel !gsrv;
+         Printf.printf "%s %s\n" (match r with Some b -> bool_s b | None -> "?") (state_s sv'.s_rc))
     | ["D"; s; t; now] ->
-      (match !st with
+      (match cur_cache () with
        | None -> print_endline "NOCACHE"
        | Some c ->
          let (r, c') = is_duplicate c (n_of_dec s) (bytes_of_hex t) (z_of_dec now) in
-         st := Some c';
+         set_cache c';
          Printf.printf "%s %s\n" (bool_s r) (state_s c'))
     | _ -> print_endline "?")
